@@ -266,32 +266,32 @@ def scanLv (data : Bytes) (atEOF : Bool) : Bool → Level → List Level → Out
       let rs := reset || lv0.lastNewline
       let inner := if rs then inner0.map resetLevel else inner0
       let lv := normLevel lv0
-      finish <|
-        if !lv.spanStack.isEmpty then
-          let r := scanSpan lv data atEOF
-          (r.1, r.2, inner)
-        else if lv.mask &&& BlockPre == BlockPre then
-          let r := scanPre { lv with hasRun := true } data atEOF
-          (r.1, r.2, inner)
-        else
-          match startsBlockQuote data atEOF with
-          | none => (.more, lv, inner)
-          | some l =>
-            if l > 0 && !lv.quoteStarted then
-              (.tok l (data.take l),
-               { lv with mask := lv.mask ||| BlockQuote ||| BlockQuoteStart,
-                         clearMask := lv.clearMask ||| BlockQuoteStart,
-                         quoteStarted := true, hasRun := true },
-               if inner.isEmpty then [{}] else inner)
-            else if l > 0 || (lv.quoteStarted && !inner0.isEmpty) then
-              match inner0 with
-              | [] => (.panic, lv, [])
-              | q :: qs =>
-                let r := scanLv data atEOF rs q qs
-                (r.1, lv, r.2.1 :: r.2.2)
-            else
-              let r := scanBlock lv data atEOF
-              (r.1, r.2, [])
+      -- `finish` is the deferred function of `scan`; it only matters where a token is returned
+      if !lv.spanStack.isEmpty then
+        let r := scanSpan lv data atEOF
+        finish (r.1, r.2, inner)
+      else if lv.mask &&& BlockPre == BlockPre then
+        let r := scanPre { lv with hasRun := true } data atEOF
+        finish (r.1, r.2, inner)
+      else
+        match startsBlockQuote data atEOF with
+        | none => (.more, lv, inner)
+        | some l =>
+          if l > 0 && !lv.quoteStarted then
+            finish (.tok l (data.take l),
+             { lv with mask := lv.mask ||| BlockQuote ||| BlockQuoteStart,
+                       clearMask := lv.clearMask ||| BlockQuoteStart,
+                       quoteStarted := true, hasRun := true },
+             if inner.isEmpty then [{}] else inner)
+          else if l > 0 || (lv.quoteStarted && !inner0.isEmpty) then
+            match inner0 with
+            | [] => (.panic, lv, [])
+            | q :: qs =>
+              let r := scanLv data atEOF rs q qs
+              finish (r.1, lv, r.2.1 :: r.2.2)
+          else
+            let r := scanBlock lv data atEOF
+            finish (r.1, r.2, [])
 
 /-! ## `Style`, `Quote` -/
 
@@ -346,6 +346,26 @@ inductive End
 
 abbrev Split (σ : Type) := σ → Bytes → Bool → Out × σ
 
+/-- `len(s.buf) >= s.maxTokenSize` with the buffer full -/
+def atLimit (limit : Option Nat) (n : Nat) : Bool :=
+  match limit with | some L => decide (n ≥ L) | none => false
+
+/-- size of the next read: the next entry of the schedule (at least one byte), everything
+that is left when the schedule is exhausted -/
+def chunkSize (sizes : List Nat) (left : Nat) : Nat :=
+  match sizes with | [] => left | k :: _ => max k 1
+
+/-- What the scanner does when the split function asks for more data: stop at EOF, fail
+when the buffer is at the token limit, otherwise read one more chunk and continue. -/
+def readStep {ρ : Type} (limit : Option Nat) (sizes : List Nat) (dataEOF : Bool) (buf pending : Bytes)
+    (eof : Bool) (stop : End → ρ) (cont : List Nat → Bytes → Bytes → Bool → ρ) : ρ :=
+  if eof then stop .eof
+  else if atLimit limit buf.length then stop .tooLong
+  else
+    let k := chunkSize sizes pending.length
+    cont sizes.tail (buf ++ pending.take k) (pending.drop k)
+      (pending.isEmpty || (dataEOF && (pending.drop k).isEmpty))
+
 /-- One `bufio.Scanner` (`limit` = maximum token size, `none` = unbounded) driving a split
 function: call it on what is buffered whenever there is something buffered or the reader
 has reported EOF; on "more" read one more chunk (or stop at EOF, or fail when the buffer is
@@ -356,14 +376,8 @@ def scanner {σ : Type} (split : Split σ) (limit : Option Nat) :
   | 0, _, _, _, _, _, _ => ([], .fuel)
   | fuel + 1, sizes, dataEOF, s, buf, pending, eof =>
     let read (s' : σ) : List (Bytes × σ) × End :=
-      if eof then ([], .eof)
-      else if (match limit with | some L => decide (buf.length ≥ L) | none => false) then ([], .tooLong)
-      else
-        let k := match sizes with | [] => pending.length | k :: _ => max k 1
-        let chunk := pending.take k
-        let pending' := pending.drop k
-        let eof' := pending.isEmpty || (dataEOF && pending'.isEmpty)
-        scanner split limit fuel sizes.tail dataEOF s' (buf ++ chunk) pending' eof'
+      readStep limit sizes dataEOF buf pending eof (fun e => ([], e))
+        (fun sizes' buf' pending' eof' => scanner split limit fuel sizes' dataEOF s' buf' pending' eof')
     if buf.isEmpty && !eof then read s
     else
       match split s buf eof with
